@@ -62,7 +62,7 @@ theorem blacklisted_two (c0 c1 : UInt8) (h0 : c0 = 0 ∨ isClassU8 c0 = true) (h
       · decide
       · exact ⟨a1, a2⟩
       · exact ⟨b1, b2⟩
-  unfold searchKeyword at hb
+  rw [searchKeyword_eq] at hb; unfold searchKeywordSpec at hb
   simp only [hg] at hb
   cases hl : lookupKw ([48, upperAscii c0, upperAscii c1] : Bytes).length (keyNat [48, upperAscii c0, upperAscii c1]) with
   | none => rw [hl] at hb; simp at hb
